@@ -101,6 +101,22 @@ def _entry_size_read(fa: FA, cm, v, at_stmt, kx):
             return None
         v, nodes = ds[0].value, [ds[0].node]
         hops += 1
+    if isinstance(v, ast.IfExp):
+        # `self.map[k].obj_size if k in self.map else 0`: the recorded size when there is an entry, nothing otherwise
+        zero = lambda x: isinstance(x, ast.Constant) and x.value == 0 and x.value is not False
+        try:
+            lits = fa._atoms(v.test, nodes[0], True)
+        except AnalysisError:
+            return None
+        if len(lits) != 1:
+            return None
+        (txt, pol) = lits[0]
+        if txt not in ("%s in self.%s" % (kx, cm.map), "%s in self.%s.keys()" % (kx, cm.map)):
+            return None
+        read, other = (v.body, v.orelse) if pol else (v.orelse, v.body)
+        if not zero(other) or isinstance(read, ast.IfExp):
+            return None
+        v = read
     if not (isinstance(v, ast.Attribute) and v.attr == "obj_size"):
         return None
     base = v.value
@@ -131,10 +147,12 @@ def _entry_size_read(fa: FA, cm, v, at_stmt, kx):
     return read_nodes
 
 
-def _deletion_balanced(fa: FA, cm, st, kx):
-    """`del self.map[k]` is paired with exactly one `counter -= <size recorded in the entry of k>` on every path
-    through it, and that size is read out of the map before the entry is gone.  -> (ok, why)"""
+def _deletion_balanced(fa: FA, cm, st, kx, key_text=None):
+    """`del self.map[k]` (or a `self.map.pop(k ...)` whose value is not used) is paired with exactly one
+    `counter -= <size recorded in the entry of k>` on every path through it, and that size is read out of the map before
+    the entry is gone.  -> (ok, why)"""
     blk = _block_of(fa, st)
+    key_text = key_text if key_text is not None else A.norm(st.targets[0].slice)
     augs = [s2 for s2 in fa.stmts(ast.AugAssign) if isinstance(s2.op, ast.Sub) and self_attr(s2.target, cm.counter)]
     if not augs:
         return False, "no `%s -= <entry>.obj_size` beside the deletion" % cm.counter
@@ -144,7 +162,7 @@ def _deletion_balanced(fa: FA, cm, st, kx):
         rn = _entry_size_read(fa, cm, s2.value, s2, kx)
         if rn is None:
             if s2 in blk or len(augs) == 1:
-                why = "the subtracted size is not read from %s[%s]" % (cm.map, A.norm(st.targets[0].slice)) \
+                why = "the subtracted size is not read from %s[%s]" % (cm.map, key_text) \
                     if isinstance(s2.value, ast.Attribute) and s2.value.attr == "obj_size" else "the subtracted amount is not the entry's obj_size"
             continue
         decs.append(s2)
@@ -164,6 +182,86 @@ def _deletion_balanced(fa: FA, cm, st, kx):
     if not at_most_once(fa, decn):
         return False, "the entry's size is subtracted more than once"
     return True, ""
+
+
+def _size_flow(fa: FA, cm, st, kind):
+    """Where the size of the entry bound by statement `st` (`e = self.map.pop(k)`: kind 'entry'; `s = self.map.pop(k).obj_size`:
+    kind 'size') is subtracted from the counter, following plain local copies (`s = e.obj_size`, `t = s`).
+    -> (the `counter -= ...` statements that subtract it, CFG nodes that rebind a carrying local to something else)"""
+    carriers = {(st.targets[0].id, kind): set(fa.nodes(st))}  # (local, what it holds) -> CFG nodes of the definitions that carry it
+    changed = True
+    rounds = 0
+    while changed and rounds < 6:
+        changed = False
+        rounds += 1
+        for s2 in fa.stmts(ast.Assign):
+            if len(s2.targets) != 1 or not isinstance(s2.targets[0], ast.Name) or s2 is st:
+                continue
+            v = s2.value
+            got = None
+            if isinstance(v, ast.Attribute) and v.attr == "obj_size" and isinstance(v.value, ast.Name) and (v.value.id, "entry") in carriers:
+                src, got = (v.value.id, "entry"), "size"
+            elif isinstance(v, ast.Name) and ((v.id, "entry") in carriers or (v.id, "size") in carriers):
+                src = (v.id, "entry") if (v.id, "entry") in carriers else (v.id, "size")
+                got = src[1]
+            if got is None:
+                continue
+            # the copy is taken from a carrying definition and from nothing else
+            n2 = fa.nodes(s2)
+            if n2 and all(fa.df.reaching(i, src[0]) and all(d.node in carriers[src] for d in fa.df.reaching(i, src[0])) for i in n2):
+                k2 = (s2.targets[0].id, got)
+                if not set(n2) <= carriers.get(k2, set()):
+                    carriers.setdefault(k2, set()).update(n2)
+                    changed = True
+    subs, others = [], set()
+
+    def zero_def(d):
+        return d.kind == "assign" and isinstance(d.value, ast.Constant) and d.value.value == 0 and d.value.value is not False
+
+    for s2 in fa.stmts(ast.AugAssign):
+        if not (isinstance(s2.op, ast.Sub) and self_attr(s2.target, cm.counter)):
+            continue
+        v = s2.value
+        if isinstance(v, ast.Attribute) and v.attr == "obj_size" and isinstance(v.value, ast.Name) and (v.value.id, "entry") in carriers:
+            key = (v.value.id, "entry")
+        elif isinstance(v, ast.Name) and (v.id, "size") in carriers:
+            key = (v.id, "size")
+        else:
+            continue
+        ds = [d for i in fa.nodes(s2) for d in fa.df.reaching(i, key[0])]
+        if not any(d.node in carriers[key] for d in ds):
+            continue
+        # what else may reach the subtraction: for an entry, only None (nothing was resident; reading its size would fail, not
+        # mis-account); for a size, only a literal 0
+        foreign = [d for d in ds if d.node not in carriers[key] and not (key[1] == "size" and zero_def(d))
+                   and not (key[1] == "entry" and d.kind == "assign" and d.value is not None and A.is_none(d.value))]
+        if foreign:
+            continue
+        subs.append(s2)
+    for (nm, _k), nodes in carriers.items():
+        for n in fa.cfg.nodes:
+            if n.id in nodes:
+                continue
+            if any(d.name == nm for d in fa.df.gen.get(n.id, [])):
+                others.add(n.id)
+    return subs, others
+
+
+def _zero_unless_mutated(fa: FA, cm, st, mut_nodes) -> bool:
+    """`counter -= amount` / `counter += amount` where `amount` is a local: on every path either the amount was set beside a
+    mutation of the resident map, or it is the literal 0 (nothing changes, nothing is accounted)."""
+    v = st.value
+    if not isinstance(v, ast.Name):
+        return False
+    ds = [d for i in fa.nodes(st) for d in fa.df.reaching(i, v.id)]
+    if not ds:
+        return False
+    for d in ds:
+        if d.kind == "assign" and isinstance(d.value, ast.Constant) and d.value.value == 0 and d.value.value is not False:
+            continue
+        if d.node < 0 or d.kind != "assign" or not every_path_through(fa, [d.node], mut_nodes):
+            return False
+    return True
 
 
 def check_accounting(ck, cm: CacheModel):
@@ -212,17 +310,29 @@ def check_accounting(ck, cm: CacheModel):
                 if isinstance(st, ast.AugAssign) and isinstance(st.op, ast.Sub) and self_attr(st.target, cm.counter) \
                         and isinstance(st.value, ast.Attribute) and st.value.attr == "obj_size" and st.value.value is c:
                     ok = True
-                elif isinstance(st, ast.Assign) and st.value is c and isinstance(st.targets[0], ast.Name):
-                    ename = st.targets[0].id
-                    subs = [s2 for s2 in fa.stmts(ast.AugAssign) if isinstance(s2.op, ast.Sub) and self_attr(s2.target, cm.counter)
-                            and isinstance(s2.value, ast.Attribute) and s2.value.attr == "obj_size" and isinstance(s2.value.value, ast.Name)
-                            and any(d.node in fa.nodes(st) for i in fa.nodes(s2) for d in fa.df.reaching(i, s2.value.value.id))
-                            and all(len(fa.df.reaching(i, s2.value.value.id)) == 1 for i in fa.nodes(s2))]
+                elif isinstance(st, ast.Assign) and len(st.targets) == 1 and isinstance(st.targets[0], ast.Name) and \
+                        (st.value is c or (isinstance(st.value, ast.Attribute) and st.value.attr == "obj_size" and st.value.value is c)):
+                    # the popped entry (or its size) is kept in a local; its size reaches `counter -= ...` through locals
+                    ename = st.targets[0].id if st.value is c else None
+                    subs, others = _size_flow(fa, cm, st, "entry" if st.value is c else "size")
                     # every path from the pop to the exit either subtracts or found nothing (the popped value is None / falsy)
                     popx = A.norm(c)
-                    edge_ok = branch_filter(fa, lambda t_, p_, popx=popx, ename=ename: (p_ and t_ in (popx + " is None", ename + " is None"))
+                    edge_ok = branch_filter(fa, lambda t_, p_, popx=popx, ename=ename: (p_ and t_ in (popx + " is None", str(ename) + " is None"))
                                             or (not p_ and t_ in (popx, ename)))
-                    ok = bool(subs) and all(fa.cfg.exit not in fa.cfg.reach([i], removed=fa.nodes_all(subs), edge_ok=edge_ok, include_start=False) for i in fa.nodes(st))
+                    subn = fa.nodes_all(subs)
+                    # (a pop that raises has taken nothing out: the exception edge of the pop statement itself is not a path "after the pop")
+                    popn = set(fa.nodes(st))
+                    done = lambda s_, d_, l_: not (s_ in popn and l_ == "exc")
+                    edge_ok = both(edge_ok, done)
+                    ok = bool(subs) and all(fa.cfg.exit not in fa.cfg.reach([i], removed=subn, edge_ok=edge_ok, include_start=False) for i in fa.nodes(st))
+                    if ok and any(o in fa.cfg.reach([i], removed=subn, edge_ok=done, include_start=False) for i in popn for o in others):
+                        ok, why = False, "the local that carries the popped entry's size is overwritten before it is subtracted from %s" % cm.counter
+                    if ok and not at_most_once(fa, subn):
+                        ok, why = False, "the popped entry's size is subtracted more than once"
+                elif isinstance(st, ast.Expr) and st.value is c and c.args:
+                    # the popped value is dropped: the size was read out of the map beforehand (as for `del self.map[k]`)
+                    ok, why2 = _deletion_balanced(fa, cm, st, k, A.norm(c.args[0]))
+                    why = why2 or why
                 ck.ob(R, fa.key(st, "pop-map"), ok, "pop() balanced by counter decrement" if ok else why, fa.where(st))
                 rem = [x for x in fa.calls("remove") if self_attr(A.call_recv(x), cm.queue) and x.args and _xn(fa, x.args[0], x) == k]
                 # the queue entry goes whenever the key may be queued, also when it was not resident: a path may skip
@@ -311,7 +421,7 @@ def check_accounting(ck, cm: CacheModel):
                     mut = [s2 for s2 in fa.stmts((ast.Delete, ast.Assign)) if any(isinstance(t, ast.Subscript) and self_attr(t.value, cm.map)
                                                                                      for t in (s2.targets if isinstance(s2, (ast.Delete, ast.Assign)) else []))]
                     mut += [c for c in fa.calls() if A.call_attr(c) in ("pop", "popitem") and self_attr(A.call_recv(c), cm.map)]
-                    paired = bool(mut) and every_path_through(fa, fa.nodes(st), fa.nodes_all(mut))
+                    paired = bool(mut) and (every_path_through(fa, fa.nodes(st), fa.nodes_all(mut)) or _zero_unless_mutated(fa, cm, st, fa.nodes_all(mut)))
                 ck.ob(R, fa.key(st, "counter-aug"), paired,
                       "counter adjustment sits beside a map mutation" if paired else
                       "counter adjusted without a map mutation in the same block", fa.where(st))
@@ -664,8 +774,9 @@ class BudgetTests:
             if n.kind != "for" or n.ast is None:
                 continue
             it = n.ast.iter
-            if not (isinstance(it, ast.Call) and isinstance(it.func, ast.Name) and it.func.id == "range" and len(it.args) == 1 and not it.keywords
-                    and self._is_queue_len(it.args[0], n.id)):
+            snapshot_var = queue_snapshot_loop_var(cm, n.ast)
+            if snapshot_var is None and not (isinstance(it, ast.Call) and isinstance(it.func, ast.Name) and it.func.id == "range" and len(it.args) == 1
+                                              and not it.keywords and self._is_queue_len(it.args[0], n.id)):
                 continue
             starts = [d for (d, l) in cfg.succ[n.id] if l == "T"]
             region = {i for i in cfg.reach(starts, removed=[n.id]) if n.id in cfg.reach([i])}  # the loop body: can come round again
@@ -682,12 +793,17 @@ class BudgetTests:
                         continue
                     if self_attr(A.call_recv(x), cm.queue):
                         if A.call_attr(x) in ("popleft", "pop", "remove") and fa.unconditional(x):
-                            takers.add(i)
+                            if snapshot_var is None:
+                                takers.add(i)
                         elif A.call_attr(x) not in ("popleft", "pop", "remove", "count", "index", "copy", "__len__", "__contains__"):
                             spoiled = True
                     elif cm.is_self_call(x, cm.evict) and x.args and fa.unconditional(x):
                         a0 = safe_expand(fa, x.args[0], x)
-                        if isinstance(a0, ast.Subscript) and self_attr(a0.value, cm.queue):
+                        if snapshot_var is not None:
+                            # a walk over a copy of the queue: the loop runs out with an empty queue when every key visited is evicted
+                            if isinstance(a0, ast.Name) and a0.id == snapshot_var and _only_loop_def(fa, a0, i, n.ast):
+                                takers.add(i)
+                        elif isinstance(a0, ast.Subscript) and self_attr(a0.value, cm.queue):
                             takers.add(i)  # the evict role takes the evicted key out of the queue (C06.R1 del-queue)
                     elif isinstance(x.func, ast.Attribute) and isinstance(x.func.value, ast.Name) and x.func.value.id == "self" \
                             and not cm.is_self_call(x, cm.evict):
@@ -724,6 +840,25 @@ class BudgetTests:
                     if all(x in ("IndexError", "LookupError") for x in names):
                         out.add((n.id, "exc"))
         return out
+
+
+def queue_snapshot_loop_var(cm, loop):
+    """`for v in list(self.queue):` / tuple(...) / deque(...) / self.queue.copy() -- a walk over a copy of the recency queue, oldest
+    key first.  -> the loop variable's name, or None"""
+    if not isinstance(loop, ast.For) or not isinstance(loop.target, ast.Name):
+        return None
+    it = loop.iter
+    if isinstance(it, ast.Call) and isinstance(it.func, ast.Name) and it.func.id in ("list", "tuple", "deque") and len(it.args) == 1 and not it.keywords \
+            and self_attr(it.args[0], cm.queue):
+        return loop.target.id
+    if isinstance(it, ast.Call) and A.call_attr(it) == "copy" and not it.args and self_attr(A.call_recv(it), cm.queue):
+        return loop.target.id
+    return None
+
+
+def _only_loop_def(fa: FA, name, nid, loop) -> bool:
+    ds = fa.df.reaching(nid, name.id)
+    return len(ds) == 1 and ds[0].kind == "for" and ds[0].stmt is loop
 
 
 def _without(edges):
@@ -801,6 +936,13 @@ def _check_budget_site(ck, cm, R, fa, ins):
             elif isinstance(a0, ast.Call) and isinstance(a0.func, ast.Name) and a0.func.id == "next" and len(a0.args) == 1 \
                     and isinstance(a0.args[0], ast.Call) and isinstance(a0.args[0].func, ast.Name) and a0.args[0].func.id == "iter" \
                     and len(a0.args[0].args) == 1 and self_attr(a0.args[0].args[0], cm.queue):
+                left.append(c)
+            elif isinstance(a0, ast.Name) and isinstance(wst, ast.For) and queue_snapshot_loop_var(cm, wst) == a0.id \
+                    and all(_only_loop_def(fa, a0, i, wst) for i in fa.nodes(c)) and (h0 := [h for h in heads if cfg.node(h).kind == "for"]) \
+                    and (wst_starts := [d for h in h0 for (d, l) in cfg.succ[h] if l == "T"]) \
+                    and not (set(h0) & cfg.reach(wst_starts, removed=fa.nodes(c))):
+                # a walk over a copy of the queue, oldest first, in which every key visited is evicted before the next one is
+                # looked at: the key in hand is always the least recently used one still queued
                 left.append(c)
         ck.ob("C06.R3", fa.key(wst, "evict-lru-end"), bool(left),
               "the loop evicts queue.popleft() (least recently used end)" if left else
@@ -1003,7 +1145,21 @@ def _not_resident_edges(fa: FA, cm, kx):
     present = {"%s in %s" % (kx, m), "%s in %s.keys()" % (kx, m), "%s.__contains__(%s)" % (m, kx), "%s.get(%s)" % (m, kx),
                "%s.get(%s, None)" % (m, kx), m, "len(%s)" % m, "len(%s) > 0" % m, "bool(%s)" % m}
     absent = {"%s.get(%s) is None" % (m, kx), "%s.get(%s, None) is None" % (m, kx), "0 == len(%s)" % m, "len(%s) == 0" % m}
-    branches = branch_filter(fa, lambda t_, p_: (p_ and t_ in absent) or (not p_ and t_ in present))
+    def sentinel_miss(text) -> bool:
+        # `self.map.get(k, D) is D` for a named default D (None, a module-level sentinel object): true exactly when there is no entry
+        try:
+            e = ast.parse(text, mode="eval").body
+        except SyntaxError:
+            return False
+        if not (isinstance(e, ast.Compare) and len(e.ops) == 1 and isinstance(e.ops[0], ast.Is)):
+            return False
+        for (g, d) in ((e.left, e.comparators[0]), (e.comparators[0], e.left)):
+            if isinstance(g, ast.Call) and A.call_attr(g) == "get" and isinstance(g.func, ast.Attribute) and A.norm(g.func.value) == m and len(g.args) == 2 \
+                    and not g.keywords and A.norm(g.args[0]) == kx and (A.dotted(d) is not None or A.is_none(d)) and A.norm(g.args[1]) == A.norm(d):
+                return True
+        return False
+
+    branches = branch_filter(fa, lambda t_, p_: (p_ and (t_ in absent or sentinel_miss(t_))) or (not p_ and t_ in present))
     memo = {}
 
     def subscripts_key(s):
@@ -1262,6 +1418,26 @@ def _evicts_every_resident_key(fa: FA, cm) -> bool:
     return bool(heads) and fa.cfg.must_pass(heads, fa.cfg.exit)
 
 
+def _loops_surely_passing(fa: FA, events) -> list:
+    """CFG nodes of `for` loops over a literal, non-empty collection (`for k in [key]:`, `for t in (a, b):`, named directly or
+    through a local) in which every way through the first iteration passes one of the CFG nodes `events`: reaching such a
+    loop is as good as reaching the event."""
+    out = []
+    cfg = fa.cfg
+    events = set(events)
+    for n in cfg.nodes:
+        if n.kind != "for" or n.ast is None or n.id not in cfg.reachable_nodes():
+            continue
+        it = safe_expand(fa, n.ast.iter, n.ast)
+        if not (isinstance(it, (ast.List, ast.Tuple, ast.Set)) and it.elts and not isinstance(it.elts[0], ast.Starred)):
+            continue
+        starts = [d for (d, l) in cfg.succ[n.id] if l == "T"]
+        r = cfg.reach(starts, removed=events)
+        if starts and n.id not in r and cfg.exit not in r:
+            out.append(n.id)
+    return out
+
+
 def check_forget(ck, cm: CacheModel, rule="C06.R5"):
     ck.rule(rule, "forget operations of the cache evict through the evict role (so accounts are updated) and drop weak refs", 3)
     for name in ("forget_call", "forget_function", "forget_everything"):
@@ -1289,7 +1465,8 @@ def check_forget(ck, cm: CacheModel, rule="C06.R5"):
                 [d for d in fa.stmts(ast.Delete) if any(isinstance(t, ast.Subscript) and self_attr(t.value, cm.map) for t in d.targets)]
             ok = bool(ev) or bool(own_del)  # own deletion sites are held to the accounting rule R1
             if name == "forget_call" and ev:
-                ok = fa.cfg.must_pass(fa.nodes_all(ev), fa.cfg.exit)
+                evn = fa.nodes_all(ev)
+                ok = fa.cfg.must_pass(evn + _loops_surely_passing(fa, evn), fa.cfg.exit)
             ck.ob(rule, fa.key(None, "evicts"), ok, "%s evicts through the accounting helper" % name if ok else
                   "%s does not evict through the accounting helper on every path" % name, fa.where())
             if cm.refs:
@@ -1611,6 +1788,7 @@ class ForgetScope:
         self.root_exprs = []  # the look-up expressions inside tables that are enumerated
         self.filters = []    # (condition expression, CFG node, names bound by a comprehension)
         self.other = []      # sources that are not cache state (parameters, unknown forms)
+        self.partial = []    # selections by position out of a local collection of keys (`keys[0]`, `keys[:n]`, `keys[i]` for some i)
         self._seen = set()
 
     def trace(self, e, at, env=None, _n=0):
@@ -1633,6 +1811,11 @@ class ForgetScope:
                 if d.kind in ("assign", "for", "aug") and d.value is not None and d.node >= 0:
                     if d.kind == "for" and isinstance(getattr(d.stmt, "target", None), (ast.Tuple, ast.List)):
                         tg = d.stmt.target
+                        if len(tg.elts) == 2 and isinstance(tg.elts[1], ast.Name) and tg.elts[1].id == e.id and isinstance(d.value, ast.Call) \
+                                and isinstance(d.value.func, ast.Name) and d.value.func.id == "enumerate" and len(d.value.args) == 1 and not d.value.keywords:
+                            # `for i, k in enumerate(keys)`: k runs over the elements of `keys`
+                            self.trace(d.value.args[0], d.node, None, _n + 1)
+                            continue
                         if not (tg.elts and isinstance(tg.elts[0], ast.Name) and tg.elts[0].id == e.id):
                             self.other.append(e)
                             continue
@@ -1681,6 +1864,10 @@ class ForgetScope:
                         self.fields.setdefault(r.field, e)
                         self.root_exprs.append(e)
                         return
+                if nm in ("pop", "popleft") and isinstance(e.func.value, ast.Name) and e.func.value.id not in env \
+                        and rooted(fa, e.func.value, at) is None and self._drained_by(e):
+                    # `while keys: ... keys.pop()`: every element of the local collection, one by one
+                    return self.trace(e.func.value, at, env, _n + 1)
             self.other.append(e)
             return
         if isinstance(e, ast.Subscript):
@@ -1689,6 +1876,17 @@ class ForgetScope:
                 self.fields.setdefault(r.field, e)
                 self.root_exprs.append(e)
                 return
+            if isinstance(e.slice, ast.Slice) and e.slice.lower is None and e.slice.upper is None:
+                return self.trace(e.value, at, env, _n + 1)  # `keys[:]`, `keys[::-1]`: all of them
+            if isinstance(e.value, ast.Name) and e.value.id not in env:
+                if self._index_sweeps(e.value.id, e.slice, at) or self._head_of_drained(e):
+                    # `keys[i]` under `for i in range(len(keys))`: every element of the local collection, one by one
+                    return self.trace(e.value, at, env, _n + 1)
+                if fa.df.reaching(at, e.value.id):
+                    # a position / a slice picked out of a local collection of keys: where the keys come from is still decided,
+                    # but not all of them are handed on
+                    self.partial.append(e)
+                    return self.trace(e.value, at, env, _n + 1)
             self.other.append(e)
             return
         if isinstance(e, (ast.ListComp, ast.SetComp, ast.GeneratorExp)):
@@ -1727,6 +1925,67 @@ class ForgetScope:
         if isinstance(e, ast.Starred):
             return self.trace(e.value, at, env, _n + 1)
         self.other.append(e)
+
+    def _index_sweeps(self, coll: str, idx, at) -> bool:
+        """is `idx` a loop variable that runs over every position of the local collection `coll` -- bound (only) by
+        `for idx in range(len(coll))` / `range(0, len(coll))` / `reversed(range(len(coll)))`?"""
+        if not isinstance(idx, ast.Name):
+            return False
+        ds = self.fa.df.reaching(at, idx.id)
+        if not ds:
+            return False
+
+        def full_range(it):
+            if isinstance(it, ast.Call) and isinstance(it.func, ast.Name) and it.func.id == "reversed" and len(it.args) == 1 and not it.keywords:
+                it = it.args[0]
+            if not (isinstance(it, ast.Call) and isinstance(it.func, ast.Name) and it.func.id == "range" and not it.keywords):
+                return False
+            a = it.args
+            if len(a) == 2 and isinstance(a[0], ast.Constant) and a[0].value == 0 and a[0].value is not False:
+                a = a[1:]
+            return len(a) == 1 and isinstance(a[0], ast.Call) and isinstance(a[0].func, ast.Name) and a[0].func.id == "len" \
+                and len(a[0].args) == 1 and isinstance(a[0].args[0], ast.Name) and a[0].args[0].id == coll
+
+        return all(d.kind == "for" and isinstance(getattr(d.stmt, "target", None), ast.Name) and full_range(d.value) for d in ds)
+
+    def _head_of_drained(self, sub) -> bool:
+        """`coll[0]` / `coll[-1]` inside `while coll:` -- the loop goes on until the collection is used up"""
+        fake = ast.Call(func=ast.Attribute(value=sub.value, attr="pop", ctx=ast.Load()), args=[sub.slice], keywords=[])
+        w = self.fa.enclosing(sub, (ast.While,))
+        return w is not None and self._drained_by(fake, w, self.fa.unconditional(sub))
+
+    def _drained_by(self, call, w=None, uncond=None) -> bool:
+        """does `call` (`coll.pop()` / `coll.pop(0)` / `coll.pop(-1)` / `coll.popleft()`) sit in a `while` loop that goes on for as
+        long as the local collection has elements (`while coll:`, `while len(coll) > 0:` ...)?"""
+        coll = call.func.value.id
+        a = call.args
+        end = not a or (len(a) == 1 and ((isinstance(a[0], ast.Constant) and a[0].value in (0, -1) and a[0].value is not False)
+                                         or (isinstance(a[0], ast.UnaryOp) and isinstance(a[0].op, ast.USub) and isinstance(a[0].operand, ast.Constant)
+                                             and a[0].operand.value == 1)))
+        if call.keywords or not end:
+            return False
+        w = w if w is not None else self.fa.enclosing(call, (ast.While,))
+        uncond = self.fa.unconditional(call) if uncond is None else uncond
+        if w is None or not uncond:
+            return False
+        t = w.test
+
+        def is_len(x):
+            return isinstance(x, ast.Call) and isinstance(x.func, ast.Name) and x.func.id == "len" and len(x.args) == 1 \
+                and isinstance(x.args[0], ast.Name) and x.args[0].id == coll
+
+        def zero(x):
+            return isinstance(x, ast.Constant) and x.value == 0 and x.value is not False
+
+        if (isinstance(t, ast.Name) and t.id == coll) or is_len(t):
+            return True
+        if isinstance(t, ast.Compare) and len(t.ops) == 1:
+            l, r, op = t.left, t.comparators[0], t.ops[0]
+            if is_len(l) and zero(r) and isinstance(op, (ast.Gt, ast.NotEq)):
+                return True
+            if zero(l) and is_len(r) and isinstance(op, (ast.Lt, ast.NotEq)):
+                return True
+        return False
 
     def path_filters(self, nid, key=None):
         """the branch literals under which CFG node `nid` is reached (a test whether the key itself was found -- `k is None`,
@@ -1879,6 +2138,13 @@ def check_forget_scope(ck, cm: CacheModel, rule="C06.R5"):
     else:
         whyf = "which keys are evicted depends on the key and the function reference only"
     ck.ob(rule, fa.key(None, "scope-not-narrowed-by-state"), okf, whyf, fa.where(at))
+    # all of the selected keys are handed to the eviction, not some of them picked by position
+    okp = not sc.partial
+    ck.ob(rule, fa.key(None, "scope-covers-every-selected-key"), okp,
+          "every key selected for the function is evicted" if okp else
+          "forget_function evicts only `%s` -- some of the keys it selected, picked by position: the other resident entries of the function stay "
+          "resident and served after the function was forgotten, and %s never returns to zero" % (A.short(sc.partial[0], 50), cm.counter),
+          fa.where(sc.partial[0] if sc.partial else at))
     # an index instead of a scan: the index must list every resident key
     if ok_src and not from_map:
         for T in aux:
